@@ -1330,7 +1330,7 @@ pub fn c19(ctx: &mut Ctx) -> String {
             }
         };
         // (exponents beyond the integer types included: 2^31, 2^32 + 2, 1e18 are exponents like any other)
-        let p = *ctx.rng.pick(&[0.25, 0.5, 1.0, 1.0, 2.0, 2.0, 7.0, 1e3, 0.0, -1.0, f64::NAN, f64::INFINITY, 2147483648.0, 4294967298.0, 1e18, 3.0]);
+        let p = *ctx.rng.pick(&[0.25, 0.5, 1.0, 1.0, 2.0, 2.0, 7.0, 1e3, 0.0, -1.0, f64::NAN, f64::INFINITY, 2147483648.0, 4294967298.0, 1e18, 3.0, 5e-324, 1e-310, f64::MIN_POSITIVE]);
         ctx.stat(&format!("p_{}", if p.is_nan() { "nan".to_string() } else { format!("{}", p) }));
         if i < 2 {
             ctx.sample(json!({"family": fam, "nodes": t.size(), "p": p, "tree_line": t.to_line()}));
